@@ -24,7 +24,7 @@ PROPERTY = 'C11'
 LEVEL = 'exploration'
 RULE = ('a contiguous fragment (4-24 residues quick / 4-40 thorough, optionally crossing a chain boundary, or split into two chains with generated identifiers by leaving one residue out) of one of 11 test structures '
         '(with and without hydrogens, with disulfides, two chains) x a presentation change (within-residue atom permutation, '
-        'hydrogen renaming by scheme or unique random names, synthetic alternate-location records, one of 24 exact rotations + grid translation up to 20 A, one case in three up to 400 A, PYTHONHASHSEED in '
+        'hydrogen renaming by scheme or unique random names, synthetic alternate-location records, one of 24 exact rotations + grid translation up to 20 A, one case in three up to 400 A, one in four such that a heavy atom lands on the origin exactly, PYTHONHASHSEED in '
         '{0,1,4242}) x pipeline options (-ff martini3001/martini22/elnedyn22, -elastic with bounds, -p backbone, -ss, -dssp, -cys, '
         '-nt, -noscfix, -merge all / -merge <chains>); both runs go through the real entry() and the written files are compared; non-trivial = the change moved '
         'at least one heavy atom in the file or renamed a hydrogen, and the fragment contains a residue with a symmetric side '
@@ -430,6 +430,13 @@ def run(case):
     if opt.get('merge') == 'listed':
         opt['merge'] = ','.join(chains) if len(chains) > 1 and all(c.strip() for c in chains) else None
     args = cli_args(opt)
+    if transform.get('origin_atom') is not None:
+        # the rigid motion is chosen such that one heavy atom lands on the origin exactly (0.000 0.000 0.000 in the file)
+        heavy = [line for _, lines in residues for line in lines if not is_h(line) and line[16] in (' ', 'A')]
+        line = heavy[transform['origin_atom'] % len(heavy)]
+        old_xyz = (float(line[30:38]), float(line[38:46]), float(line[46:54]))
+        perm, sign = ROTATIONS[transform['rot']]
+        transform = dict(transform, shift=[-sign[k] * int(round(old_xyz[perm[k]] * 1000)) for k in range(3)])
     base_text, _, _ = render(residues, None)
     var_text, moved, renamed = render(residues, transform)
     res_a = pipeline(0, base_text, args, timeout=3600.0)
@@ -494,6 +501,8 @@ def run(case):
             classes.append('chains-merged')
     if max(abs(v) for v in transform['shift']) > 100000:
         classes.append('far-from-origin')
+    if transform.get('origin_atom') is not None:
+        classes.append('atom-on-the-origin')
     if any(line[16] == 'B' for _, lines in residues for line in lines):
         classes.append('alternate-locations')
     if has_ss:
@@ -540,6 +549,7 @@ def strategy(tier):
                            st.lists(st.integers(-20000, 20000), min_size=3, max_size=3),
                            st.lists(st.integers(-400000, 400000), min_size=3, max_size=3)),
         'hashseed': st.sampled_from([0, 1, 4242]),
+        'origin_atom': st.one_of(st.none(), st.none(), st.none(), st.integers(0, 300)),
     })
     options = st.fixed_dictionaries({
         'ff': st.sampled_from(['martini3001', 'martini3001', 'martini22', 'elnedyn22']),
